@@ -53,7 +53,7 @@ func expectHeaders(url string, kind string) map[string]string {
 
 func TestC19Serve(t *testing.T) {
 	r := NewRun(t, "C19", "serve")
-	r.Rule = "the built cmd/skylight (plain HTTP on a loopback port) over real log directories (host-only, path-prefixed, deep path prefix), a witness prefix and its mirror, next to canary files no prefix configures; raw HTTP/1.1 requests: every existing file through its layout URL under every host/prefix combination (right and wrong), layout URLs of non-existing coordinates, and traversal / confusion targets (.., %2e%2e, %2f, %5c, //, /./, trailing slash, directories, dot-files, checkpoint/.., other log's prefix, origin = .. / mirror, absolute-form targets, long paths); oracle: 200 => body is bytewise a regular file inside the directory of the prefix the request addresses, for layout URLs exactly the named file, with the prescribed headers; plus an unmodified sunlight.Client reading each whole log through the server; distinct = (prefix kind, target class, status)"
+	r.Rule = "the built cmd/skylight (plain HTTP on a loopback port) over real log directories (host-only, path-prefixed, deep path prefix), a witness prefix and its mirror, next to canary files no prefix configures; raw HTTP/1.1 requests: every existing file through its layout URL under every host/prefix combination (right and wrong), layout URLs of non-existing coordinates, and traversal / confusion targets (.., %2e%2e, %2f, %5c, //, /./, trailing slash, directories, dot-files, symbolic links leading out of the directory, checkpoint/.., other log's prefix, origin = .. / mirror, absolute-form targets, long paths); oracle: 200 => body is bytewise a regular file inside the directory of the prefix the request addresses, for layout URLs exactly the named file, with the prescribed headers; plus an unmodified sunlight.Client reading each whole log through the server; distinct = (prefix kind, target class, status)"
 	if _, err := os.Stat(verifBin("skylight")); err != nil {
 		r.Inconcl("skylight binary not built: %v", err)
 		return
@@ -201,6 +201,12 @@ func TestC19Serve(t *testing.T) {
 			judge(prefixes[len(prefixes)-1], f.WitHost, f.WitPath+"/mirror/"+o+tail, "origin-confusion", "")
 		}
 	}
+	// symlinks inside a served directory that lead out of it must not be followed
+	for _, tgt := range []string{"/issuer/" + strings.Repeat("ab", 32), "/tile/0/777", "/linked-checkpoint", "/linkdir/checkpoint", "/linkdir/tile/0/000"} {
+		judge(prefixes[0], prefixes[0].Host, prefixes[0].Path+tgt, "symlink-out", "")
+	}
+	judge(prefixes[len(prefixes)-1], f.WitHost, f.WitPath+"/"+strings.Repeat("cd", 32)+"/checkpoint", "symlink-out", "")
+	judge(prefixes[len(prefixes)-1], f.WitHost, f.WitPath+"/"+strings.Repeat("cd", 32)+"/tile/0/000", "symlink-out", "")
 	for _, m := range []string{"/health", "/metrics", "/logs.json"} {
 		judge(prefixes[0], prefixes[0].Host, m, "meta", "")
 	}
